@@ -183,3 +183,4 @@ def install(reg):
                   "self.content_length", "self.header_bytes_received", "self.body_bytes_received", "self.body_rcv", "self.version", "self.error",
                   "self.connection_close", "self.headers", "self.first_line", "self.command", "self.request_uri", "self.path", "self.query",
                   "self.fragment", "self.proxy_scheme", "self.proxy_netloc", "self.url_scheme"]))
+    reg.funcs["parser.HTTPRequestParser.received"].owns = ["self.body_rcv"]     # the receiver (and its buffer) belong to the parser
